@@ -440,8 +440,12 @@ void carquet_bit_writer_init(carquet_bit_writer_t* writer,
 }
 
 static void flush_buffer(carquet_bit_writer_t* writer) {
-    while (writer->buffer_bits >= 8 && writer->byte_pos < writer->capacity) {
-        writer->data[writer->byte_pos++] = (uint8_t)(writer->buffer);
+    /* Complete bytes leave the 64-bit accumulator even when the output is
+     * full (they are dropped then): pending bits must never pile up in it */
+    while (writer->buffer_bits >= 8) {
+        if (writer->byte_pos < writer->capacity) {
+            writer->data[writer->byte_pos++] = (uint8_t)(writer->buffer);
+        }
         writer->buffer >>= 8;
         writer->buffer_bits -= 8;
     }
@@ -460,6 +464,11 @@ void carquet_bit_writer_write_bits(carquet_bit_writer_t* writer,
                                     uint32_t value, int num_bits) {
     if (num_bits == 0) return;
     if (num_bits > 32) num_bits = 32;
+
+    /* up to 55 bits may be pending: make room so that 32 more fit in 64 */
+    if (writer->buffer_bits > 32) {
+        flush_buffer(writer);
+    }
 
     uint32_t mask = num_bits == 32 ? ~0U : (1U << num_bits) - 1;
     writer->buffer |= (uint64_t)(value & mask) << writer->buffer_bits;
